@@ -156,6 +156,21 @@ def main(tier):
     write_jsonl(jp, jobs)
     mbt("prod", "conf", "plaintext", jp, os.path.join(wd, "plain.json"))
     pl = json.load(open(os.path.join(wd, "plain.json")))
+    # the same scan at scaled constants (many chunks, many writes to the destination: the failing-once destination of the
+    # engine then fails inside a chunk emission and many more follow), on an archive with telling names and contents
+    telling = [dict(op="start", n="confidential-alpha.txt", id=0), dict(op="append", id=0, len=50, src="exact", piece=1),
+               dict(op="start", n="confidential-beta.txt", id=1), dict(op="append", id=1, len=45, src="exact", piece=3),
+               dict(op="append", id=0, len=33, src="exact", piece=4), dict(op="end", id=0), dict(op="flush"), dict(op="end", id=1),
+               dict(op="add", n="confidential-gamma.txt", len=70, id=2, piece=8), dict(op="finalize")]
+    jobs2 = [dict(par=dict(stack=st, seed=seed() + 187 + i, level=5, entropy="high", nrecip=1 + i), labels=telling)
+             for i, st in enumerate(("enc", "comp+enc"))] + jobs[:6]
+    jp2 = os.path.join(wd, "plain2.jsonl")
+    write_jsonl(jp2, jobs2)
+    mbt("s20", "conf", "plaintext", jp2, os.path.join(wd, "plain2.json"))
+    pl2 = json.load(open(os.path.join(wd, "plain2.json")))
+    pl["violations"] += pl2["violations"]
+    pl["runs"] += pl2["runs"]
+    pl["bytes_scanned"] += pl2["bytes_scanned"]
     for viol in pl["violations"]:
         v.violation(dict(check="plaintext-scan", kind=viol["kind"], stack=viol["par"]["stack"]), dict(engine="conf", detail=viol))
     log(f"[C07] KeyWrap: {len(behs)} behaviours on real keys; freshness history of {tinfo.get('len')} creations "
